@@ -1,0 +1,117 @@
+//go:build verif
+// +build verif
+
+package runtime
+
+import "fmt"
+
+// VerifCheckInvariants is a read-only consistency check of the table's
+// internal representation, compiled only with the `verif` build tag (it is
+// used by the external verification harness, never by golua itself).
+//
+// It checks the invariants documented in hashtable.go: (I1) all chains are
+// finite, (I2) all items in a chain have the same primary slot, (I3) the first
+// item of a chain is in its primary slot; the flags are consistent with the
+// chain structure; nextFree designates an empty slot; keys are unique and
+// normalised; the array length is the index of its last non-nil item; no key
+// lives both in the array part and (with a value) in the hash part.
+func (t *Table) VerifCheckInvariants() error {
+	mt := t.mixedTable
+	if mt == nil {
+		return fmt.Errorf("nil mixedTable")
+	}
+	if a := mt.array; a != nil {
+		if a.len > uintptr(len(a.values)) {
+			return fmt.Errorf("array.len %d > size %d", a.len, len(a.values))
+		}
+		if a.len > 0 && a.values[a.len-1].IsNil() {
+			return fmt.Errorf("array.len %d but item %d is nil", a.len, a.len)
+		}
+		for i := a.len; i < uintptr(len(a.values)); i++ {
+			if !a.values[i].IsNil() {
+				return fmt.Errorf("array item %d non-nil beyond array.len %d", i+1, a.len)
+			}
+		}
+	}
+	h := mt.hashTable
+	if h == nil {
+		return nil
+	}
+	n := uintptr(len(h.slots))
+	if n != 1<<h.base {
+		return fmt.Errorf("hash size %d is not 1<<base (base %d)", n, h.base)
+	}
+	mask := n - 1
+	if h.nextFree != noNextFree {
+		if h.nextFree >= n {
+			return fmt.Errorf("nextFree %d out of range (size %d)", h.nextFree, n)
+		}
+		if !h.slots[h.nextFree].isEmpty() {
+			return fmt.Errorf("nextFree %d designates a non-empty slot", h.nextFree)
+		}
+	}
+	for i := range h.slots {
+		it := &h.slots[i]
+		if it.isEmpty() {
+			if !it.value.IsNil() {
+				return fmt.Errorf("slot %d has a value but no key", i)
+			}
+			continue
+		}
+		if f, ok := it.key.TryFloat(); ok {
+			if _, tp := FloatToInt(f); tp == IsInt {
+				return fmt.Errorf("slot %d: float key %v with an integer value is not normalised", i, f)
+			}
+			if f != f {
+				return fmt.Errorf("slot %d: NaN key", i)
+			}
+		}
+		if j, ok := it.key.TryInt(); ok && !it.value.IsNil() {
+			if v, inArray := mt.array.get(j); inArray {
+				return fmt.Errorf("key %d has a value in the hash part but belongs to the array part (array value nil: %v)", j, v.IsNil())
+			}
+		}
+		for j := i + 1; j < len(h.slots); j++ {
+			if !h.slots[j].isEmpty() && h.slots[j].key.Equals(it.key) {
+				return fmt.Errorf("duplicate key in slots %d and %d", i, j)
+			}
+		}
+		if mask < smallHashTableSize {
+			continue
+		}
+		primary := it.key.Hash() & mask
+		if (uintptr(i) != primary) != it.isChained() {
+			return fmt.Errorf("slot %d: chained flag %v but primary slot is %d", i, it.isChained(), primary)
+		}
+		// walk the chain from the primary slot: it must reach slot i
+		cur, steps, found := primary, uintptr(0), false
+		for {
+			c := &h.slots[cur]
+			if c.isEmpty() {
+				return fmt.Errorf("chain from primary slot %d passes through empty slot %d", primary, cur)
+			}
+			if c.key.Hash()&mask != primary {
+				return fmt.Errorf("chain from primary slot %d contains slot %d whose primary slot is %d (I2)", primary, cur, c.key.Hash()&mask)
+			}
+			if cur == uintptr(i) {
+				found = true
+				break
+			}
+			if !c.hasNext() {
+				break
+			}
+			cur = c.nextIndex()
+			if cur >= n {
+				return fmt.Errorf("slot next index %d out of range", cur)
+			}
+			steps++
+			if steps > n {
+				return fmt.Errorf("chain from primary slot %d is cyclic (I1)", primary)
+			}
+		}
+		if !found {
+			return fmt.Errorf("slot %d is not reachable from its primary slot %d (I3)", i, primary)
+		}
+	}
+	return nil
+}
